@@ -100,6 +100,24 @@ pub mod stdshim {
             pub fn new(kind: ErrorKind, _msg: &str) -> (r: Error) { Error { kind } }
         }
     }
+    /// std::time::{SystemTime, Duration} as used by the SMB negotiate replies (ServerTime).  Assumed, never
+    /// proved: the wall clock is not before 1970-01-01 (so `duration_since(UNIX_EPOCH)` is Ok) and is
+    /// below 2^40 seconds (year ~36800), so the FILETIME arithmetic of smb.rs cannot overflow a u64.
+    pub mod time {
+        use vstd::prelude::*;
+        #[derive(Clone, Copy)]
+        pub struct SystemTime { pub t: u64 }
+        pub struct Duration { pub s: u64 }
+        #[derive(Debug)]
+        pub struct SystemTimeError { pub e: u64 }
+        impl SystemTime {
+            pub const UNIX_EPOCH: SystemTime = SystemTime { t: 0 };
+            #[verifier::external_body] pub fn now() -> (r: SystemTime) ensures r.t < 0x100_0000_0000 { unimplemented!() }
+            #[verifier::external_body] pub fn duration_since(&self, earlier: SystemTime) -> (r: Result<Duration, SystemTimeError>)
+                ensures earlier.t <= self.t ==> r.is_ok() && r.unwrap().s == self.t - earlier.t { unimplemented!() }
+        }
+        impl Duration { #[verifier::external_body] pub fn as_secs(&self) -> (r: u64) ensures r == self.s { unimplemented!() } }
+    }
     use vstd::prelude::*;
     use std::net::{Ipv4Addr, Ipv6Addr};
     use crate::shim::*;
